@@ -1,7 +1,7 @@
 SPECIFICATION Spec
 CONSTANTS
   N = 4
-  FlushPolicy = "always"
+  FlushPolicy = "swallow"
   MayFail = TRUE
   MayFlushFail = TRUE
 INVARIANT C11_AckedDurable
